@@ -43,6 +43,12 @@ Definition index_at {N} (ns : list N) (bg : N) (dom : Z) : N :=
 Definition ell_ind (r : vec) (q : vec) : bool :=
   let '(r1,r2,r3) := r in let '(q1,q2,q3) := q in sq (q1 / r1) + sq (q2 / r2) + sq (q3 / r3) <? one O.
 
+(** LayeredSphere.r: outer radii from layer thicknesses, r[0] = t[0]; r[i+1] = r[i] + t[i+1] *)
+Fixpoint cumsum_from (acc : T) (ts : list T) : list T :=
+  match ts with [] => [] | t :: r => (acc + t) :: cumsum_from (acc + t) r end.
+Definition layered_radii (ts : list T) : list T :=
+  match ts with [] => [] | t0 :: r => t0 :: cumsum_from t0 r end.
+
 (** shapes: primitives and the CSG tree *)
 Inductive shape :=
 | Sph (c : vec) (rs : list T)      (* Sphere / layered sphere: outer radii of the layers *)
